@@ -12,11 +12,11 @@ import (
 	"net/http"
 	"os"
 	"os/exec"
-	"path/filepath"
 	"reflect"
 	"sort"
 	"strconv"
 	"strings"
+	"sync"
 	"time"
 
 	"github.com/fatedier/frp/cmd/frpc/sub"
@@ -198,7 +198,12 @@ func observeLive(c *h.Case, how string, clis []v1.ProxyConfigurer) {
 		}
 		// 1. reconstructed configuration as shown by the dashboard API
 		if typ != "sudp" {
-			raw, err := dashboardConf(typ, b.Name)
+			var raw json.RawMessage
+			var err error
+			h.Eventually(5*time.Second, func() bool { // the statistics entry appears just after the proxy table entry
+				raw, err = dashboardConf(typ, b.Name)
+				return err == nil
+			})
 			if err != nil {
 				run.Inconclusive("dashboard API did not list a live proxy")
 			} else {
@@ -324,18 +329,27 @@ func liveCase(c *h.Case) {
 		names = append(names, pc.GetBaseConfig().Name)
 	}
 	defer func() { cli.Close(); waitGone(names) }()
-	if err := cli.WaitRunning(20*time.Second, names...); err != nil {
+	if err := cli.WaitRunning(40*time.Second, names...); err != nil {
 		var phases []string
+		refused := false
 		for _, n := range names {
 			st, _ := cli.Svc.StatusExporter().GetProxyStatus(n)
 			if st != nil && st.Phase != "running" {
 				phases = append(phases, fmt.Sprintf("%s=%s(%s)", n, st.Phase, st.Err))
+				if st.Phase == "start error" && st.Err != "" && !strings.Contains(strings.ToLower(st.Err), "timeout") {
+					refused = true
+				}
 			}
 		}
 		c.Ev("not-running", "phases", phases)
 		joined := strings.Join(phases, "; ")
 		if strings.Contains(joined, "port") && (strings.Contains(joined, "already") || strings.Contains(joined, "unavailable")) {
 			run.Inconclusive("live: a remote port was busy")
+			return
+		}
+		if !refused { // merely slow (loaded machine): no verdict
+			fmt.Fprintf(os.Stderr, "case %d: live client not running after 40 s: %s\n", c.Idx, joined)
+			run.Inconclusive("live: proxies not running within 40 s")
 			return
 		}
 		c.Violation("live-valid-proxies-not-accepted", "proxies loaded from a valid %s document do not all start at the server: %v %s\n%s", f, err, joined, short(text))
@@ -348,19 +362,26 @@ func liveCase(c *h.Case) {
 
 // ---- child processes
 
-func spawnChild(mode string, env []string, args ...string) (*exec.Cmd, *bytes.Buffer, error) {
-	cmd := exec.Command(os.Args[0], args...)
-	if f, err := os.OpenFile(filepath.Join(h.RunDir(prop), "child-stderr.log"), os.O_CREATE|os.O_APPEND|os.O_WRONLY, 0o644); err == nil {
-		cmd.Stderr = f
-		defer f.Close()
-	}
+// lockedBuf is a goroutine-safe output buffer of a child process.
+type lockedBuf struct {
+	mu sync.Mutex
+	b  bytes.Buffer
+}
+
+func (l *lockedBuf) Write(p []byte) (int, error) {
+	l.mu.Lock()
+	defer l.mu.Unlock()
+	return l.b.Write(p)
+}
+func (l *lockedBuf) String() string { l.mu.Lock(); defer l.mu.Unlock(); return l.b.String() }
+func (l *lockedBuf) Bytes() []byte  { return []byte(l.String()) }
+
+func spawnChild(mode string, env []string, args ...string) (cmd *exec.Cmd, stdout, stderr *lockedBuf, err error) {
+	cmd = exec.Command(os.Args[0], args...)
 	cmd.Env = append(append(os.Environ(), "C18_CHILD="+mode), env...)
-	var out bytes.Buffer
-	cmd.Stdout = &out
-	if cmd.Stderr == nil {
-		cmd.Stderr = io.Discard
-	}
-	return cmd, &out, cmd.Start()
+	stdout, stderr = &lockedBuf{}, &lockedBuf{}
+	cmd.Stdout, cmd.Stderr = stdout, stderr
+	return cmd, stdout, stderr, cmd.Start()
 }
 
 type loadDump struct {
@@ -432,7 +453,7 @@ func childEnvCase(c *h.Case) {
 	}
 	sort.Strings(env)
 	c.Data["env"], c.Data["template"] = env, tmpl
-	cmd, out, err := spawnChild("load", env, pt, "true")
+	cmd, out, _, err := spawnChild("load", env, pt, "true")
 	if err != nil {
 		run.Inconclusive("cannot start child process")
 		return
@@ -522,7 +543,7 @@ func childFlagCase(c *h.Case) {
 		c.Violation("clean-document-rejected-"+f, "file equivalent of a frpc command line rejected: %v\n%s", err, short(text))
 		return
 	}
-	cmd, _, err := spawnChild("frpc", nil, args...)
+	cmd, cout, cerr, err := spawnChild("frpc", nil, args...)
 	if err != nil {
 		run.Inconclusive("cannot start child process")
 		return
@@ -551,7 +572,15 @@ func childFlagCase(c *h.Case) {
 		return false
 	})
 	if early {
-		c.Violation("frpc-command-line-rejected", "`frpc %s` exited instead of registering proxy %q (the file form of the same settings is valid)", strings.Join(args, " "), name)
+		said := cout.String() + cerr.String()
+		low := strings.ToLower(said)
+		if strings.Contains(low, "timeout") || strings.Contains(low, "login to the server failed") || strings.Contains(low, "connection refused") || strings.Contains(low, "i/o") {
+			fmt.Fprintf(os.Stderr, "case %d: frpc child gave up: %s\n", c.Idx, short(said))
+			run.Inconclusive("frpc child could not reach the server")
+			return
+		}
+		c.Ev("child-output", "text", said)
+		c.Violation("frpc-command-line-rejected", "`frpc %s` exited instead of registering proxy %q (the file form of the same settings is valid): %s", strings.Join(args, " "), name, short(said))
 		return
 	}
 	if !ok {
